@@ -19,7 +19,7 @@
 //   tok <chunk> <hash> <ep> <k> <d>                   -> pre= dg= valid=      (attempt k of solve_token_challenge; valid = digest_meets_difficulty)
 //   toksolve <chunk> <hash> <ep> <d> <max>            -> nonce=<n> | none
 //   hint <path>                                       -> some:<hex> | none
-//   storecli <cfg> <name> <content>                   -> rc=<n> err=<code|-> name=<hex|->   (real CLI `store` against a real in-process daemon)
+//   storecli <cfg> <name> <content>                   -> rc=<n> err=<code|->   (real CLI `store` against a real in-process daemon)
 #include "src/core/Node.cpp"
 #include "src/security/StoreProof.cpp"
 
@@ -181,13 +181,8 @@ std::string storecli(int cfg, const std::string& name, const std::vector<std::ui
     const int rc = powcli::run({"eph", "--control-host", "127.0.0.1", "--control-port", std::to_string(port), "store", path}, out, err);
     server.stop();
     ::unlink(path.c_str());
-    std::string shown = "-";
-    const std::string key = "Suggested filename: ";
-    if (auto pos = out.find(key); pos != std::string::npos) {
-        auto end = out.find('\n', pos);
-        shown = verif::hex_or_dash(verif::to_hex(out.substr(pos + key.size(), end == std::string::npos ? std::string::npos : end - pos - key.size())));
-    }
-    return "rc=" + std::to_string(rc) + " err=" + first_code(err + out) + " name=" + shown;
+    (void)out;
+    return "rc=" + std::to_string(rc) + " err=" + first_code(err + out);
 }
 
 }  // namespace
